@@ -13,6 +13,8 @@ type DefaultOpts struct {
 	Format  string
 	Seed    int64
 	NValues int
+	// PtrContainer forces the container shape, wrapped into pointers on both sides (*[]S -> *[]T with FUNC returning []T).
+	PtrContainer bool
 }
 
 // DefaultCase builds a method with `default FUNC` in one of the documented shapes. Feature "mustfail" is set when the
@@ -30,7 +32,7 @@ func DefaultCase(r *rand.Rand, name string, o DefaultOpts) *Case {
 	inS := decl("InnerS", Struct(F("X", Basic("int"))))
 	inT := decl("InnerT", Struct(F("X", Basic("int"))))
 	ctxD := decl("Ctx", Struct(F("ID", Basic("string"))))
-	if r.Intn(9) == 0 {
+	if !o.PtrContainer && r.Intn(9) == 0 {
 		// S -> *T where a target field has no source (ignoreMissing): it keeps FUNC's value - also when S is recursive
 		rec := r.Intn(2) == 0
 		rsU := Struct(F("V", Basic("int")))
@@ -65,7 +67,7 @@ func DefaultCase(r *rand.Rand, name string, o DefaultOpts) *Case {
 		c.Feature("format", o.Format)
 		return c
 	}
-	if r.Intn(5) == 0 {
+	if o.PtrContainer || r.Intn(5) == 0 {
 		// container targets: a map or a slice method with default FUNC starts from FUNC's result, too
 		isMap := r.Intn(2) == 0
 		named := r.Intn(2) == 0
@@ -90,6 +92,12 @@ func DefaultCase(r *rand.Rand, name string, o DefaultOpts) *Case {
 			tT = Named(td)
 			tyS, lit = "ty.TC", "ty.TC"+lit[len(tyS):]
 		}
+		// a POINTER to the container on both sides, FUNC still returns the container itself: for a nil source the result
+		// points to FUNC's value (the documented T-returning constructor for a *T target is not restricted to structs)
+		ptrWrap := !isArr && o.PtrContainer
+		if ptrWrap {
+			sT, tT = Ptr(sT), Ptr(tT)
+		}
 		fnErr := r.Intn(3) == 0
 		ret, body := tyS, "return "+lit
 		if fnErr {
@@ -112,7 +120,7 @@ func DefaultCase(r *rand.Rand, name string, o DefaultOpts) *Case {
 		cv.Spec = &vref.Spec{Seed: o.Seed, NValues: nv, Monitors: []string{"default"}, Funcs: []*vref.FuncSpec{{Key: "fn:NewT", Kind: "default", Roles: []string{}}}}
 		c.Convs = []*Converter{cv}
 		c.Patterns = []string{"./conv"}
-		c.Feature("shape", fmt.Sprintf("container,map=%v,named=%v,array=%v", isMap, named, isArr))
+		c.Feature("shape", fmt.Sprintf("container,map=%v,named=%v,array=%v,ptr=%v", isMap, named, isArr, ptrWrap))
 		c.Feature("fn", fmt.Sprintf("source=false,ctx=false,err=%v", fnErr))
 		c.Feature("format", o.Format)
 		return c
